@@ -512,7 +512,16 @@ func (c *Cluster) policyAccept(itx *hg.InternalTransaction) bool {
 func (c *Cluster) violate(prop, oracle, key, format string, args ...interface{}) {
 	v := &Violation{Property: prop, Oracle: oracle, Key: key, Message: fmt.Sprintf(format, args...), Step: c.stepNo}
 	if prop == "C13" {
-		c.classifyC13(v)
+		// classification reads the nodes' state and must never cost the violation
+		func() {
+			defer func() {
+				if r := recover(); r != nil {
+					c.stats.probe("c13-classification-panicked")
+					v.Message += fmt.Sprintf(" [classification failed: %v]", r)
+				}
+			}()
+			c.classifyC13(v)
+		}()
 	}
 	c.violations = append(c.violations, v)
 }
